@@ -166,7 +166,7 @@ PROPS = {
         "level_note": V0_NOTE,
     },
     "C17": {
-        "families": [{"name": "ty"}, {"name": "decl"}, {"name": "chars"}],
+        "families": [{"name": "ty"}, {"name": "decl"}, {"name": "chars"}, {"name": "limits"}],
         "tags": {"enc-panic": "direct", "enc-err": "direct", "enc-outcome": "direct", "bytes": "indirect", "rt": "indirect"},
         "process_failures": True,
         "rule": "every generated value of every catalogue type and declaration encoded under catch_unwind, error variant compared with the "
@@ -210,6 +210,50 @@ PROPS = {
                       "including where they report the end of input; var-ints read the same through the context and the reference source.",
         "level_note": "The encoder is not itself expressed as a WProg; that the real serializer only uses those four operations of its context is by "
                       "reading (SerializationContext exposes nothing else). Trusted: Lean kernel, model, harness.",
+    },
+    "C10": {
+        "families": [{"name": "graph"}],
+        "tags": {"graph": "direct", "graph-model": "indirect"},
+        "rule": "every rooted digraph with <= 3 nodes and out-degree <= 2 (exhaustive; 4 nodes exhaustive in the thorough tier, sampled in quick), "
+                "random graphs with 5-12 nodes, a record embedding a tracked object at offset 0 of another tracked object; codec over "
+                "Rc<RefCell<Node>> written against the public API only; expected byte stream (each reachable node once, ids in pre-order), "
+                "decoded shape / labels / edge order / Rc::ptr_eq sharing, ids never introduced. distinct = graphs with >= 2 reachable nodes",
+        "trusted": ["identity is the address the client passes; the harness codec passes the node allocation (the repository's own test passes the "
+                    "address of an Rc handle)", "the reader-side registration needs an object that outlives the context: the harness keeps decoded "
+                    "handles in an arena (see C19 / D13)"],
+        "level_text": "Proof: over the sequence of offers of any traversal, the reader resolves every token to the object created at the first "
+                      "offer of the same identity (offers_roundtrip), two offers resolve to the same object iff they offered the same object "
+                      "(sharing_preserved), the new markers are exactly the distinct objects (each_object_once, resolve_nodup), ids are "
+                      "first-encounter numbers, an id never introduced is an error. A concrete graph codec on the real API is checked against "
+                      "this on exhaustive small graphs.",
+        "level_note": "The theorems are about offer sequences, not about a particular graph traversal; termination on cycles follows from 'descend only on new' "
+                      "and the bound on new markers. Trusted: Lean kernel, model, harness codec.",
+    },
+    "C16": {
+        "families": [{"name": "frame"}],
+        "tags": {"frame": "direct", "frame-alloc": "direct", "frame-model": "indirect"},
+        "rule": "37 contents (empty, incompressible, repetitive, 1 B - 64 KiB+1; 256 KiB in the thorough tier) x levels 0-9 x three sinks x three "
+                "sources; data after the frame; every truncation of small frames, 56 sampled cuts of large ones; 12 damaged variants per frame "
+                "(bit flips, absurd length headers, spliced var-ints) with the largest single allocation request measured",
+        "trusted": ["deflate / inflate are parameters of the model; flate2 / miniz_oxide are exercised, not modelled"],
+        "partial": "totality, panic-freedom and allocation behaviour of the real inflate on damaged streams are measured, not proved",
+        "level_text": "Proof (partial): frame layout, round trip with untouched following data, rejection of every truncation, the 64 KiB cap "
+                      "of the reservation and panic-freedom of the frame reader, for any codec with inflate(deflate d) = d (a hypothesis of the "
+                      "theorems). The real flate2 supplies the compressed bytes and the inflate answers on every run.",
+        "level_note": "Trusted: Lean kernel; the deflate implementation; harness allocator accounting.",
+    },
+    "C18": {
+        "families": [{"name": "threads"}, {"name": "sink"}],
+        "tags": {"threads": "direct", "fresh": "direct", "repeat": "direct", "sink-bytes": "direct", "bytes": "indirect"},
+        "rule": "16 threads released by a barrier perform the first use of all 65 generated derived types (each in a different order, each call "
+                "three times); compared with the same process single-threaded afterwards, with a fresh single-threaded process, and with the "
+                "model; the sink family interleaves failing and succeeding calls on one thread",
+        "trusted": ["std::sync::Once / lazy_static publication and hashbrown reads after publication (memory model)"],
+        "partial": "data races in the runtime are outside the model; one first-use contention per type per process",
+        "level_text": "Proof (partial): for every interleaving of any number of threads and any history, every call observes exactly the metadata "
+                      "of its declaration (once-cell invariant over all schedules), at most one thread initialises a cell, and a top-level "
+                      "call starts from the empty string table. Real threads contend first use on every run.",
+        "level_note": "Trusted: Lean kernel; the Rust memory model and Once. The model is a state machine of the cells, not of the hardware.",
     },
     "C11": {
         "families": [{"name": "varint"}],
